@@ -208,6 +208,13 @@ structure FileSpec where
   nbuf : Caller
   deriving Repr
 
+/-- the same file with the `convert()` switch taken *as written* (second, literal reading by
+    translate/int2str_literal.py: `num_digits` initial value and the statements of every `case`,
+    counter statements `inc` / `check` included), when that reading is available -/
+def FileSpec.withLiteral (f : FileSpec) : Option (Nat × List Row) → FileSpec
+  | none => f
+  | some (nd, rows) => { f with ndInit := nd, rows := rows }
+
 def two (b : Nat) : Int := ((2 ^ b : Nat) : Int)
 
 /-- `abs_value` -/
